@@ -178,6 +178,8 @@ def locate_fn(linemap, line):
 
 import threading
 EXTRACT_LOCK = threading.Lock()
+# assumed functions every reply passes through: when their pinned text changes, every witness script of the property is a candidate
+GLOBAL_ASSUMED = ('Reply::fmt', 'MainState::feed_msg', 'MainState::feed_msg_source')
 
 
 def process_unit(unit, outdir, rlimit):
@@ -620,7 +622,8 @@ def main(argv):
             if prop not in w.get('properties', []) or os.path.relpath(wp, VERIF) in known_w:
                 continue
             # only scripts about a function that is among the undecided ones
-            if not any(fn.split('::')[-1] in und_fns for fn in [w.get('function', '')] + w.get('functions', []) if fn):
+            # (a change inside the rendering of the replies or inside feed_msg concerns every script: they all read replies)
+            if not any(g in und_fns for g in GLOBAL_ASSUMED) and not any(fn.split('::')[-1] in und_fns for fn in [w.get('function', '')] + w.get('functions', []) if fn):
                 continue
             w['path'] = wp
             rr = run_replay(w)
@@ -631,7 +634,7 @@ def main(argv):
                      'input': json.dumps(w.get('script'))[:1500]}
                 violations.append(('replay', e))
                 break
-            if len(tried_u) >= 4:
+            if len(tried_u) >= (12 if any(g in und_fns for g in GLOBAL_ASSUMED) else 4):
                 break
         if not violations:
             for u in undecided:
